@@ -409,6 +409,10 @@ package scipipe
 //@ define linkedMember(t *Task, a *AuditInfo, i string, j int) bool = t.subStreamIPs[i][j].path in a.Upstream && a.Upstream[t.subStreamIPs[i][j].path] == t.subStreamIPs[i][j].auditInfo && t.subStreamIPs[i][j].auditInfo != nil
 //@ define upstreamLinked(t *Task, a *AuditInfo) bool = (forall i string :: i in t.InIPs && !isJoin(t, i) ==> linkedPlain(t, a, i)) && (forall i string, j int :: i in t.InIPs && isJoin(t, i) && 0 <= j && j < len(t.subStreamIPs[i]) ==> linkedMember(t, a, i, j))
 
+//@ define apart(t *Task, a *AuditInfo, i string) bool = t.InIPs[i].auditInfo != nil && t.InIPs[i].auditInfo != a && t.InIPs[i].auditInfo.Tags != a.Tags
+//@ define tagsOfInput(t *Task, a *AuditInfo, i string) bool = forall k string :: k in t.InIPs[i].auditInfo.Tags && t.InIPs[i].auditInfo.Tags[k] != "" ==> k in a.Tags && a.Tags[k] == t.InIPs[i].auditInfo.Tags[k]
+//@ define tagsMerged(t *Task, a *AuditInfo) bool = forall i string :: i in t.InIPs && apart(t, a, i) ==> tagsOfInput(t, a, i)
+
 //@ func (*Task).writeAuditLogs(t, startTime, finishTime)
 //@   props C01 C10
 //@   requires wf: wfTask(t) && t.Process != nil && t.InIPs != nil
@@ -741,6 +745,15 @@ package scipipe
 //@   loop 2 invariant range: 0 <= $i && $i <= len(subStreamIPs[portName]) && len(paths) == $i
 //@   loop 2 invariant joined: forall j int :: 0 <= j && j < $i ==> paths[j] == prependOf(applyMods(subStreamIPs[portName][j].path, placeHolder.modifiers))
 
+// process.go initPortsFromCmdPattern (C18): the join separator of a placeholder part "join:SEP" is SEP, all of it.
+// (The parts are the |-separated pieces of a placeholder body, which contains neither braces nor bars: that is the
+// hypothesis on a and b in the step clause; it is a consequence of the placeholder pattern and of
+// strings.Split that is not proved here.)
+//@ axiom re.join.group: forall a string, b string :: fullMatch(a, "[^{}|]*") && !contains(a, "join:") && fullMatch(b, "[^{}|]+") ==> reGroup("join:([^{}|]+)", a + "join:" + b, 1) == b
+//@ func (*Process).initPortsFromCmdPattern(p, cmd, params)
+//@   props C18
+//@   modifies *
+//@   loop 1 step join-separator-is-whole-text-after-join[C18]: forall a string, b string :: part == a + "join:" + b && fullMatch(a, "[^{}|]*") && !contains(a, "join:") && fullMatch(b, "[^{}|]+") ==> p.PortInfo[portName].join && p.PortInfo[portName].joinSep == b
 // ---------------------------------------------------------------------------
 // C16 / C04: wiring (port.go), readiness (baseprocess.go), starting processes (workflow.go)
 // ---------------------------------------------------------------------------
@@ -1008,6 +1021,28 @@ package scipipe
 //@ func (*Sink).paramIn(p) (res)
 //@   props C16
 //@   ensures def: "param_sink_in" in p.inParamPorts && res == p.inParamPorts["param_sink_in"]
+// sink.go Run (C05): the sink is the default driver; Run returns when it returns. It starts one draining go-routine per
+// connected in-port; each go-routine puts its token on `merged` only after it has seen its port's channel closed and
+// empty (drain$1, drain$2), and Run takes exactly as many tokens as it started go-routines before it returns
+// (waits-for-every-drainer). Each go-routine has exactly one send (not in a loop), so "as many tokens as go-routines"
+// means one token from each: this last counting step is a meta-argument (see DESIGN.md), the rest are obligations.
+//@ func (*Sink).Run(p)
+//@   props C05
+//@   modifies chan, cells
+//@   atcall builtin.close all-tokens-taken[C05]: $arg0 == merged && chanRecvN(merged) == ite(p.inPorts["sink_in"].ready, 1, 0) + ite(p.inParamPorts["param_sink_in"].ready, 1, 0)
+//@   ensures waits-for-every-drainer[C05]: chanRecvN(merged) == ite(p.inPorts["sink_in"].ready, 1, 0) + ite(p.inParamPorts["param_sink_in"].ready, 1, 0)
+//@ func (*Sink).Run$1()
+//@   props C05
+//@   modifies chan(p.inPorts["sink_in"].Chan), chansend
+//@   atsend token-only-after-drain[C05]: $ch == merged && chanRecvN(p.inPorts["sink_in"].Chan) == chanTotal(p.inPorts["sink_in"].Chan)
+//@   ensures one-token[C05]: chanSentN(merged) == old(chanSentN(merged)) + 1
+//@   loop 0 invariant stable: p == old(p) && merged == old(merged) && chanSentN(merged) == old(chanSentN(merged))
+//@ func (*Sink).Run$2()
+//@   props C05
+//@   modifies chan(p.inParamPorts["param_sink_in"].Chan), chansend
+//@   atsend token-only-after-drain[C05]: $ch == merged && chanRecvN(p.inParamPorts["param_sink_in"].Chan) == chanTotal(p.inParamPorts["param_sink_in"].Chan)
+//@   ensures one-token[C05]: chanSentN(merged) == old(chanSentN(merged)) + 1
+//@   loop 0 invariant stable: p == old(p) && merged == old(merged) && chanSentN(merged) == old(chanSentN(merged))
 //@ func (*Sink).From(p, outPort)
 //@   props C16
 //@   modifies map[string]*OutPort, outPort.RemotePorts[*], InPort.ready, outPort.ready
